@@ -389,9 +389,12 @@ func (m *Manager) ApplyBatch(entries []*wal.Entry) error {
 
 		verifhook.At("storage.batch.after_wal")
 		// Apply each entry to the MemTable
-		for i, entry := range entries {
+		for _, entry := range entries {
 			verifhook.At("storage.batch.between_inserts")
-			seqNum := startSeqNum + uint64(i)
+			// All entries of a batch share the batch's single WAL sequence
+			// number (see wal.AppendBatch); within the batch, and on replay,
+			// later entries win by insertion order
+			seqNum := startSeqNum
 
 			switch entry.Type {
 			case wal.OpTypePut:
